@@ -35,6 +35,12 @@ class ControlRequestHandler(USBRequestHandler):
                                 of acknowledged.
             """
 
+        # Tracks whether the packet the host is about to acknowledge is our status-stage ZLP; handshakes are
+        # broadcast to every endpoint, so an ACK may just as well belong to another endpoint's IN transaction.
+        status_sent = Signal()
+        with m.If(self.interface.tokenizer.new_token):
+            m.d.usb += status_sent.eq(0)
+
         # Provide an response to the STATUS stage.
         with m.If(self.interface.status_requested):
 
@@ -43,9 +49,11 @@ class ControlRequestHandler(USBRequestHandler):
                 m.d.comb += self.interface.handshakes_out.stall.eq(1)
             with m.Else():
                 m.d.comb += self.send_zlp()
+                m.d.usb  += status_sent.eq(1)
 
-        # Accept the relevant value after the packet is ACK'd...
-        with m.If(self.interface.handshakes_in.ack):
+        # Accept the relevant value after our status packet is ACK'd...
+        with m.If(self.interface.handshakes_in.ack & status_sent):
+            m.d.usb  += status_sent.eq(0)
             m.d.comb += [
                 write_strobe      .eq(1),
                 new_value_signal  .eq(self.interface.setup.value)
